@@ -141,6 +141,123 @@ def run(ctx):
             if derivable:
                 nviol += 1
     ctx.notes["statement_model"] = {"strings": len(sstrings), "parsed_by_both": ns_ok, "rejected_by_model": ns_fail, "disagreements": ns_dis}
+    # --- (0b) the initializer parser model (Init.lean; theorems initializer_parse_pp / initializer_parse_sound) <-> the real parser: every
+    # token string up to length 4 (thorough 5) over the initializer alphabet + printed random initializer trees and their token mutations,
+    # each as the initializer of a declaration (`int v = T ;`) and as the list of a brace-enclosed one (`struct s v = { T } ;`)
+    IALPH = ["e", "m", "{", "}", ",", ".", "[", "]", "="]
+    ISPELL_E = ["1", "x + 1", "- y", "f ( 2 , 3 )", "( a , b )", "z ? 1 : 2"]
+
+    def gen_init(d, top=True):
+        k = rng.randrange(10) if d > 0 else 0
+        if not top and rng.random() < 0.35:
+            ds = []
+            for _ in range(rng.randrange(1, 4)):
+                ds += [".", "m"] if rng.random() < 0.5 else ["[", "e", "]"]
+            return ds + ["="] + gen_init(d, True)
+        if k < 4:
+            return ["e"]
+        items = []
+        for j in range(rng.randrange(1, 5)):
+            items += ([","] if j else []) + gen_init(d - 1, False)
+        return ["{"] + items + ([","] if rng.random() < 0.3 else []) + ["}"]
+
+    istrings = []
+    for n_ in (1, 2, 3, 4) if ctx.quick else (1, 2, 3, 4, 5):
+        istrings += [list(p_) for p_ in _it.product(IALPH, repeat=n_)]
+    for _ in range(2500 if ctx.quick else 40000):
+        t = gen_init(rng.choice([1, 2, 2, 3, 4]))
+        if len(t) > 70:
+            continue
+        istrings.append(t)
+        m_ = list(t)
+        for _ in range(rng.randrange(1, 3)):
+            j = rng.randrange(len(m_) + 1)
+            r_ = rng.random()
+            if r_ < 0.35 and m_: del m_[min(j, len(m_) - 1)]
+            elif r_ < 0.7: m_.insert(j, rng.choice(IALPH))
+            elif m_: m_[min(j, len(m_) - 1)] = rng.choice(IALPH)
+        if m_:
+            istrings.append(m_)
+    # an expression is ONE token of the model: `e` directly in front of `[`, `.`, `=` or another expression would continue it (subscript, member
+    # access, assignment, a binary reading of `- y`); a member name stands only after `.` (alone it is an expression)
+    istrings = [t for t in istrings
+                if not any(t[j] == "e" and j + 1 < len(t) and t[j + 1] in ("[", ".", "=", "e", "m") for j in range(len(t)))
+                and not any(t[j] == "m" and not (j and t[j - 1] == ".") for j in range(len(t)))]
+    istrings = [list(x) for x in dict.fromkeys(tuple(t) for t in istrings)]
+
+    def render_i(toks):
+        return " ".join(rng.choice(ISPELL_E) if t == "e" else "mem" if t == "m" else t for t in toks)
+    icases = []
+    for t in istrings:
+        body = render_i(t)
+        icases.append((t, t, "int v = %s ;" % body))
+        icases.append((t, ["{"] + t + ["}"], "struct s v = { %s } ;" % body))
+    ilines = ["2,1,0,2,%s a %s" % ("d" * 31, txt.encode().hex()) for _, _, txt in icases]
+    iimpl = stages.run_harness(ctx, "tree", ilines)
+    imodel = leanb.model("init", "\n".join(" ".join(mt) for _, mt, _ in icases) + "\n")
+
+    def init_sexpr(dump):
+        recs = {}
+        for r in dump.split(" | ")[0].split(" ; ")[1:]:
+            w = r.split()
+            if w[0].startswith("N"):
+                recs[int(w[0][1:])] = (w[1], " ".join(w[w.index(":") + 1:]))
+        decl = [v for v in recs.values() if v[0] == "IdentifierDeclarator"]
+        if len(decl) != 1:
+            return None
+        m = re.findall(r"\bn(\d+)", decl[0][1])
+        if len(m) != 1:
+            return None
+
+        def build(i):
+            kind, hs = recs[i]
+            if kind == "ExpressionInitializer":
+                return "e"
+            if kind == "BraceEnclosedInitializer":
+                ent = re.findall(r"(\d+),(\d+)", re.search(r"L\(([^)]*)\)", hs).group(1))
+                tc = bool(ent) and ent[-1][1] != "0"
+                return "(Brace" + ("," if tc else "") + "".join(" " + build(int(e)) for e, _ in ent) + ")"
+            if kind == "DesignatedInitializer":
+                ds = re.findall(r"(\d+),\d+", re.search(r"L\(([^)]*)\)", hs).group(1))
+                ini = re.findall(r"\bn(\d+)", hs)
+                return "(Desig" + "".join(" " + build(int(e)) for e in ds) + " " + (build(int(ini[0])) if ini else "?") + ")"
+            if kind == "FieldDesignator":
+                return "F"
+            if kind == "ArrayDesignator":
+                return "(A e)"
+            return "?" + kind
+        return build(int(m[0]))
+    ni_ok = ni_fail = ni_dis = ni_skip = 0
+    for (t, mt, txt), i, m, l in zip(icases, iimpl, imodel, ilines):
+        if i.startswith(("CRASH", "HANG")):
+            viol("crash:" + txt[:80], "parsing %r: %s" % (txt, i[:200]), txt, l); continue
+        if m == "UNMODELLED":
+            continue
+        if m.startswith("REST") and mt is t:
+            # `int v = 1 , …`: what is left after the initializer may be further declarators - the declaration's business, not the initializer's
+            ni_skip += 1
+            continue
+        try:
+            ntok = int(i.split(" ;")[0]) - 2
+        except ValueError:
+            ntok = -1
+        diags = i.split(" | ")[-1].strip() or "-"
+        full = re.search(r"N0 \w+ f1 l%d " % ntok, i) is not None
+        gs = init_sexpr(i) if diags == "-" and full else None
+        gs = gs or "FAIL"
+        ms = m[2:] if m[:2] in ("0 ", "1 ") else "FAIL"
+        if ms == "FAIL": ni_fail += 1
+        else: ni_ok += 1
+        if gs != ms:
+            ni_dis += 1
+            derivable = m.startswith("1 ")
+            if ni_dis <= 4:
+                ctx.report(("init:" if derivable else "init-corr:") + txt[:100],
+                           "initializer in %r: the parser built %s, %s %s" % (txt, gs, "the grammar (Lean model of the initializer parser, proved to invert the grammar's printing) gives" if derivable else "the Lean model of the initializer parser gives", ms),
+                           {"component": "tree", "case": l, "impl": gs, "model": ms, "tokens": " ".join(mt)}, no_input=not derivable)
+            if derivable:
+                nviol += 1
+    ctx.notes["initializer_model"] = {"strings": len(icases), "parsed_by_both": ni_ok, "rejected_by_model": ni_fail, "left_to_the_declaration": ni_skip, "disagreements": ni_dis}
     # --- (1) operator+ : complete translation validation
     impl_tab = stages.run_harness(ctx, "accept", ["ctxadd"])[0].strip()
     model_tab = leanb.model("stmtctx", "ctxadd\n")[0].strip()
